@@ -306,8 +306,8 @@ class Updater(Module):
         # set update states and associated functions
         self.updates_ = nn.ModuleDict({p: Accumulator() for p in params})
         if reduction:
-            for acc in self.updates_.values:
-                acc.reduction = reduction
+            for acc in self.updates_.values():
+                acc.reduction(reduction)
 
     @staticmethod
     def _getacc_(self: Updater, attr: str) -> Accumulator:
